@@ -38,7 +38,9 @@ func (e *invalidParamsError) Error() string { return e.message }
 func parsePositionalArguments(rawArgs json.RawMessage, types []reflect.Type) ([]reflect.Value, error) {
 	// No args
 	if len(rawArgs) == 0 || string(rawArgs) == "null" {
-		return []reflect.Value{}, nil
+		// Same as an empty array, so that missing required arguments are
+		// reported as invalid params below.
+		rawArgs = json.RawMessage("[]")
 	}
 	// Read beginning of the args array.
 	dec := json.NewDecoder(bytes.NewReader(rawArgs))
